@@ -8,9 +8,10 @@ from . import bpmodel, c15_callables, oalsyn
 from .oalgen import Printer, render
 
 
-def layout_text(body, newline_every=True):
-    """print a body with one statement per line (nested blocks indented by the token stream only)"""
-    p = Printer(choose=lambda key, options: options[0])
+def layout_text(body, newline_every=True, case=None):
+    """print a body with one statement per line (nested blocks indented by the token stream only); case: optional list
+    of spelling styles for the keywords (oalsyn.caser)"""
+    p = Printer(choose=lambda key, options: options[0], case=oalsyn.caser(case) if case else None)
     p.block(body['block'])
     gaps = []
     for i, (text, kind) in enumerate(p.toks):
@@ -21,12 +22,12 @@ def layout_text(body, newline_every=True):
 
 
 class Fixture(object):
-    def __init__(self, tape, order=(), texts=None):
+    def __init__(self, tape, order=(), texts=None, case=None):
         """texts: optional {kind:name -> body text} overriding the generated bodies (idempotence round)"""
         self.callables, self.features, _t = c15_callables.gen_graph(tape, for_prebuild=True)
         self.printed = {}
         for c in self.callables:
-            p, text, pos = layout_text(c.body)
+            p, text, pos = layout_text(c.body, case=case)
             self.printed[c.kind + ':' + c.name] = (p, text, pos)
         D = c15_callables.diagram_with(self.callables, None)
         D['irdt'] = True
